@@ -51,6 +51,15 @@ def inductive(ck):
     ck.cov['inductive_invariant_apalache'] = {'module': 'ThresholdSigInd', 'group_sizes': '2..12, every threshold 1..n-1 (symbolic)', 'obligations': done}
     if any(d['outcome'] != 'NoError' for d in done):
         ck.notes.append('Apalache did not complete every obligation of the inductive invariant (supplementary unbounded argument, not a verdict on the code)')
+    # TLAPS: the same invariant and action properties for EVERY group size and threshold (ThresholdSigProof.tla)
+    t0 = time.time()
+    proved, total, out = vlib.tlapm(SPEC, 'ThresholdSigProof', timeout=900, name='tsproof')
+    ck.cov['tlaps_proof'] = {'module': 'ThresholdSigProof', 'theorems': ['InitInv', 'Consecution', 'Safety (Spec => []IndInv)', 'StepProperties'],
+                             'obligations_proved': proved, 'obligations': total, 'wall_s': round(time.time() - t0, 1)}
+    if proved >= 0 and proved < total:
+        raise vlib.Undecided('TLAPS: %d of %d obligations of ThresholdSigProof fail: the proof or the model is wrong\n%s' % (total - proved, total, out[-1500:]))
+    if proved < 0:
+        ck.notes.append('tlapm did not run to completion (supplementary unbounded argument, not a verdict on the code)')
 
 
 def run_c06(tier):
